@@ -36,9 +36,9 @@
 int verif_exc;      /* 0 = no exception in flight */
 int verif_caught;   /* class of the exception most recently caught */
 
-#define VERIF_THROW(x) if (1) { verif_exc = (x); return VERIF_RET; } else (void)0
-#define VERIF_THROW_TO(lab, x) if (1) { verif_exc = (x); goto lab; } else (void)0
-#define VERIF_RETHROW if (1) { verif_exc = verif_caught; return VERIF_RET; } else (void)0
+#define VERIF_THROW(x) { verif_exc = (x); return VERIF_RET; }
+#define VERIF_THROW_TO(lab, x) { verif_exc = (x); goto lab; }
+#define VERIF_RETHROW { verif_exc = verif_caught; return VERIF_RET; }
 #define VERIF_CALL(e) ({ __auto_type verif_r = (e); if (verif_exc) return VERIF_RET; verif_r; })
 #define VERIF_CALLV(e) ({ (e); if (verif_exc) return VERIF_RET; (void)0; })
 #define VERIF_CALL_TO(lab, e) ({ __auto_type verif_r = (e); if (verif_exc) goto lab; verif_r; })
